@@ -145,8 +145,6 @@ C14_DIV_EXCEPTIONS = {
         "argument of a debug! message only; R_f >= 0.20",
     'c14.div|bemodel::energy::<impl types::model::Model>::global_ventilation_rate|divisor=utils::fround2(sum(filter_map(slice::iter(..),{closure})))':
         _SANE + "the net volume of habitable spaces inside the envelope is positive when a habitable space exists",
-    'c14.div|bemodel::utils::normalize|divisor=Sub(end,start)':
-        "every call site passes constant interval bounds with end > start (0/360, -180/180) [C11-D4 reads the call sites]",
     'c14.div|climate::solar::G_sol_b|divisor=solar::sind(a)':
         "a = max(altsol, 0.01) degrees, so sin(a) >= sin(0.01 deg) > 0 for the sun above the horizon",
     'c14.div|climate::solar::I_circum_eq|divisor=b':
